@@ -177,27 +177,31 @@ func flipCmp(op token.Token) token.Token {
 // equal to the largest token (2^32-1). Where two sequences are compared, an ended sequence (value =
 // marker) must therefore never win against a live one holding that same value as a real token: the
 // initial tournament's game must be decided by the 'ended' flag on equal values, as the replay already is.
-func c14MergeMarker(c *core.Ctx, pkg *packages.Package) {
+func c14MergeMarker(c *core.Ctx, pkg *packages.Package) { c14MergeMarkerAs(c, pkg, "R3") }
+
+// c14MergeMarkerAs runs the end-marker rule under rule id R (shared with C05 and C01: a token the merge
+// drops is a token without an owner in the index every lookup uses).
+func c14MergeMarkerAs(c *core.Ctx, pkg *packages.Package, R string) {
 	mt := an.FindFunc(pkg, "MergeTokens")
 	lp := c.Prog.Pkg("loser")
 	if mt == nil || lp == nil {
-		c.Miss("R3", "func=MergeTokens / pkg=loser", "not found")
+		c.Miss(R, "func=MergeTokens / pkg=loser", "not found")
 		return
 	}
 	c.Analysed(mt.String())
 	news := mt.CallsTo(false, "loser", "New")
 	if len(news) != 1 || len(news[0].Expr.Args) != 2 {
-		c.Undec("R3", "func=MergeTokens:marker", mt.Pos(), "expected one loser.New(lists, marker) call")
+		c.Undec(R, "func=MergeTokens:marker", mt.Pos(), "expected one loser.New(lists, marker) call")
 		return
 	}
 	marker := mt.Canon(news[0].Expr.Args[1])
 	inBand := marker == "math.MaxUint32" || marker == "MaxUint32" || marker == "4294967295"
 	if !inBand {
-		c.Hold("R3", "func=MergeTokens:marker", news[0].Expr.Pos(), "end-of-sequence marker "+marker+" (not the largest token)", 1)
+		c.Hold(R, "func=MergeTokens:marker", news[0].Expr.Pos(), "end-of-sequence marker "+marker+" (not the largest token)", 1)
 	}
 	pg := an.FindFunc(lp, "Tree.playGame")
 	if pg == nil {
-		c.Miss("R3", "func=loser.Tree.playGame", "not found")
+		c.Miss(R, "func=loser.Tree.playGame", "not found")
 		return
 	}
 	c.Analysed(pg.String())
@@ -211,13 +215,13 @@ func c14MergeMarker(c *core.Ctx, pkg *packages.Package) {
 			case pg.Canon(r.Results[0]) == "p0" && pg.Canon(r.Results[1]) == "p1":
 				bWins = append(bWins, g.Locate(r))
 			default:
-				c.Undec("R3", "func=loser.Tree.playGame:table", r.Pos(), "return is neither (b, a) nor (a, b)")
+				c.Undec(R, "func=loser.Tree.playGame:table", r.Pos(), "return is neither (b, a) nor (a, b)")
 				return
 			}
 		}
 	}
 	if len(aWins) != 1 || len(bWins) != 1 {
-		c.Undec("R3", "func=loser.Tree.playGame:table", pg.Pos(), fmt.Sprintf("expected one return per winner, found %d/%d", len(aWins), len(bWins)))
+		c.Undec(R, "func=loser.Tree.playGame:table", pg.Pos(), fmt.Sprintf("expected one return per winner, found %d/%d", len(aWins), len(bWins)))
 		return
 	}
 	t := an.Table{G: g, From: g.EntryLoc(), FreeUnknown: true,
@@ -232,7 +236,7 @@ func c14MergeMarker(c *core.Ctx, pkg *packages.Package) {
 			return an.FromBool(a == (i == 0))
 		}}
 	res := t.Run()
-	c.Check(res.OK(), "R3", "func=loser.Tree.playGame:table", pg.Pos(), fmt.Sprintf("the merge's end marker is %s, a legitimate token: in the initial tournament a sequence wins ⇔ its value is smaller ∨ (equal ∧ the other sequence has ended) — otherwise an instance whose only token is 2^32-1 loses it next to a token-less instance: %s", marker, res.Summary()), res.Rows)
+	c.Check(res.OK(), R, "func=loser.Tree.playGame:table", pg.Pos(), fmt.Sprintf("the merge's end marker is %s, a legitimate token: in the initial tournament a sequence wins ⇔ its value is smaller ∨ (equal ∧ the other sequence has ended) — otherwise an instance whose only token is 2^32-1 loses it next to a token-less instance: %s", marker, res.Summary()), res.Rows)
 }
 
 // c14Reviewed lists every non-constant addition/subtraction on 32-bit key or token values in the
